@@ -529,7 +529,7 @@ func resolveRoles(w *World) *Roles {
 	for _, fn := range funcs {
 		if fn.Signature.Recv() != nil && fn.Signature.Params().Len() == 1 && fn.Signature.Results().Len() == 1 && fn.Signature.Results().At(0).Type().String() == "bool" &&
 			fn.Signature.Params().At(0).Type().String() == "string" && ro.RunPred != nil &&
-			(len(findCalls(fn, func(_ string, c *ssa.CallCommon) bool { return c.StaticCallee() == ro.RunPred })) > 0 || ro.existsDelegate(fn) != nil) {
+			(len(findCalls(fn, func(_ string, c *ssa.CallCommon) bool { return c.StaticCallee() == ro.RunPred })) > 0 || ro.existsDelegate(fn) != nil || ro.countPositive(fn)) {
 			ro.PipeRunning = fn
 		}
 	}
@@ -710,4 +710,45 @@ func (ro *Roles) existsHost() (*ssa.Function, string) {
 		}
 	}
 	return g, ""
+}
+
+// countPositive: fn(runner, pipeline) returns `count(runner, pipeline) > 0` (or != 0, >= 1) with count the admission's
+// counting function — "some job of the pipeline runs" stated through the count the admission decision uses.
+func (ro *Roles) countPositive(fn *ssa.Function) bool {
+	if ro.Count == nil || fn == ro.Count {
+		return false
+	}
+	n, ok := 0, false
+	allInstrs(fn, func(in ssa.Instruction) {
+		rt, isRt := in.(*ssa.Return)
+		if !isRt || len(rt.Results) != 1 || (fn.Recover != nil && rt.Block() == fn.Recover) {
+			return
+		}
+		n++
+		b, isB := ro.w.Resolve(rt.Results[0]).(*ssa.BinOp)
+		if !isB {
+			return
+		}
+		x, y, op := b.X, b.Y, b.Op
+		if _, isK := ro.w.Resolve(x).(*ssa.Const); isK { // 0 < count
+			x, y = y, x
+			switch op {
+			case token.LSS:
+				op = token.GTR
+			case token.LEQ:
+				op = token.GEQ
+			}
+		}
+		c, isC := ro.w.Resolve(x).(*ssa.Call)
+		k, isK := ro.w.Resolve(y).(*ssa.Const)
+		if !isC || !isK || c.Call.StaticCallee() != ro.Count || k.Value == nil {
+			return
+		}
+		kv, exact := constant.Int64Val(k.Value)
+		if !exact || len(c.Call.Args) != 2 || ro.w.AP(c.Call.Args[0]) != "recv" || ro.w.AP(c.Call.Args[1]) != "arg0" {
+			return
+		}
+		ok = (op == token.GTR && kv == 0) || (op == token.NEQ && kv == 0) || (op == token.GEQ && kv == 1)
+	})
+	return n == 1 && ok
 }
